@@ -159,9 +159,9 @@ class PermutationReciprocalTransformer(BaseReciprocalTransformer):
         ind = self.knn_.kneighbors([[cl]], return_distance=False)
         res = self.knn_perm_[ind, 0]
         if self.knn_perm_.dtype in (numpy.float32, numpy.float64):
-            return float(res)
+            return float(res.ravel()[0])
         if self.knn_perm_.dtype in (numpy.int32, numpy.int64):
-            return int(res)
+            return int(res.ravel()[0])
         raise NotImplementedError(
             f"The function does not work for type {self.knn_perm_.dtype}."
         )
